@@ -20,7 +20,8 @@ Definition nilb {A} (l : list A) : bool := match l with [] => true | _ => false 
 Definition hard_chr (c : N) : bool := memb c [c_dq; c_slash; c_colon; c_sp; c_tab; c_nl; c_bt; 126; 124; 38; 35].
 
 (* a bare token on which the recogniser's code scanner only steps: no quote, slash, colon, blank, backtick,
-   ~ | & #, no "->", '+' only as an exponent sign, and no free-standing word "vs".  `prev` = character before. *)
+   ~ | & #, no "->", '+' only as an exponent sign, and no word "vs" at a token start (after `$` `.` `-` or a word
+   character a "vs" belongs to the VARIABLE / IDENTIFIER token, as for the lexer).  `prev` = character before. *)
 Fixpoint inert (s : str) (prev : N) : bool :=
   match s with
   | [] => true
@@ -29,7 +30,7 @@ Fixpoint inert (s : str) (prev : N) : bool :=
       else if N.eqb c c_plus then
         (N.eqb prev 101 || N.eqb prev 69) && (match r with d :: _ => is_digit d | [] => false end) && inert r c
       else if N.eqb c c_dash && prefixb [c_gt] r then false
-      else if N.eqb c 118 && prefixb [115] r && negb (word_chr prev) &&
+      else if N.eqb c 118 && prefixb [115] r && negb (word_chr prev) && negb (memb prev [36; 46; 45]) &&
               (match r with _ :: x :: _ => negb (word_chr x) | _ => true end) then false
       else inert r c
   end.
@@ -73,9 +74,9 @@ Proof.
       cbn [follow_ok] in Hf. apply andb_true_iff in Hf. destruct Hf as [Hz _]. apply negb_true_iff in Hz.
       rewrite N.eqb_sym in Hz. cbn [prefixb]. rewrite Hz. reflexivity. }
     rewrite Hd. destruct (N.eqb c c_dash && prefixb [c_gt] s) eqn:Hda; [discriminate|].
-    assert (Hv : (N.eqb c 118 && prefixb [115] (s ++ r) && negb (word_chr prev) &&
+    assert (Hv : (N.eqb c 118 && prefixb [115] (s ++ r) && negb (word_chr prev) && negb (memb prev [36; 46; 45]) &&
                   (match s ++ r with _ :: x :: _ => negb (word_chr x) | _ => true end)) =
-                 (N.eqb c 118 && prefixb [115] s && negb (word_chr prev) &&
+                 (N.eqb c 118 && prefixb [115] s && negb (word_chr prev) && negb (memb prev [36; 46; 45]) &&
                   (match s with _ :: x :: _ => negb (word_chr x) | _ => true end))).
     { destruct s as [|y s'].
       - cbn [app]. destruct r as [|z r']; [reflexivity|].
@@ -83,8 +84,9 @@ Proof.
         rewrite N.eqb_sym in Hz. cbn [prefixb]. rewrite Hz. cbn [andb]. rewrite !andb_false_r. reflexivity.
       - destruct s' as [|x s'']; [|reflexivity]. cbn [app prefixb]. cbn [prefixb] in Hi.
         destruct (N.eqb c 118) eqn:E1; [|reflexivity]. destruct (N.eqb 115 y) eqn:E2; [|reflexivity].
-        destruct (negb (word_chr prev)) eqn:Hw; [|reflexivity]. cbn [andb] in Hi. discriminate Hi. }
-    rewrite Hv. destruct (N.eqb c 118 && prefixb [115] s && negb (word_chr prev) &&
+        destruct (negb (word_chr prev)) eqn:Hw; [|reflexivity].
+        destruct (negb (memb prev [36; 46; 45])) eqn:Hm; [|reflexivity]. cbn [andb] in Hi. discriminate Hi. }
+    rewrite Hv. destruct (N.eqb c 118 && prefixb [115] s && negb (word_chr prev) && negb (memb prev [36; 46; 45]) &&
                           (match s with _ :: x :: _ => negb (word_chr x) | _ => true end)); [discriminate|].
     exact (IH c r Hi Hf).
 Qed.
@@ -95,10 +97,16 @@ Proof.
   intro H. destruct (N.eqb_spec p 101) as [->|_]; [vm_compute in H; discriminate|].
   destruct (N.eqb_spec p 69) as [->|_]; [vm_compute in H; discriminate|]. reflexivity.
 Qed.
-Lemma inert_nw s p q : word_chr p = false -> word_chr q = false -> inert s p = inert s q.
+Lemma inert_from0 s p : word_chr p = false -> inert s 0 = true -> inert s p = true.
 Proof.
-  intros Hp Hq. destruct s as [|c s]; [reflexivity|]. cbn [inert].
-  rewrite (word_chr_e p Hp), (word_chr_e q Hq), Hp, Hq. reflexivity.
+  intros Hp. destruct s as [|c s]; [reflexivity|]. cbn [inert].
+  rewrite (word_chr_e p Hp), Hp.
+  change (N.eqb 0 101 || N.eqb 0 69) with false. change (word_chr 0) with false. change (memb 0 [36; 46; 45]) with false.
+  cbn [negb andb].
+  destruct (hard_chr c); [trivial|]. destruct (N.eqb c c_plus); [trivial|].
+  destruct (N.eqb c c_dash && prefixb [c_gt] s); [trivial|].
+  destruct (N.eqb c 118 && prefixb [115] s); destruct (match s with _ :: x :: _ => negb (word_chr x) | _ => true end);
+    destruct (negb (memb p [36; 46; 45])); cbn [andb]; trivial; discriminate.
 Qed.
 
 Lemma inert_all_soft s : forall p, inert s p = true -> forallb (fun c => negb (hard_chr c)) s = true.
@@ -108,7 +116,7 @@ Proof.
   destruct (N.eqb c c_plus).
   - apply andb_true_iff in H. destruct H as [_ H]. exact (IH c H).
   - destruct (N.eqb c c_dash && prefixb [c_gt] s); [discriminate|].
-    destruct (N.eqb c 118 && prefixb [115] s && negb (word_chr p) && _); [discriminate|]. exact (IH c H).
+    destruct (N.eqb c 118 && prefixb [115] s && negb (word_chr p) && _ && _); [discriminate|]. exact (IH c H).
 Qed.
 
 Lemma soft_no c s : hard_chr c = true -> forallb (fun x => negb (hard_chr x)) s = true -> memb c s = false.
@@ -210,7 +218,7 @@ Proof.
   constructor; try assumption.
   - destruct s as [|c s']; [exact I|]. destruct (hard_chr_facts c H6) as (_ & _ & _ & Hs & _ & _ & Hb & _). split; assumption.
   - intros prev r Hp Hf. exists (last s prev). apply scan_inert; [|exact Hf].
-    rewrite (inert_nw s prev 0 Hp eq_refl). exact Hi.
+    exact (inert_from0 s prev Hp Hi).
 Qed.
 
 Lemma tok_quote s : tok_ok (quote s).
@@ -1203,7 +1211,7 @@ Proof.
   destruct k as [|x t]; [discriminate|]. cbn [ident_word]. intros H Hvs. apply andb_true_iff in H. destruct H as [Hx Ht].
   pose proof (start_is_word x Hx) as Hw. destruct (word_facts x Hw) as (F1 & F2 & F3).
   unfold key_safe. cbn [nilb negb andb inert]. rewrite F1, F2, F3. cbn [andb].
-  assert (Hc : (N.eqb x 118 && prefixb [115] t && negb (word_chr 0) &&
+  assert (Hc : (N.eqb x 118 && prefixb [115] t && negb (word_chr 0) && negb (memb 0 [36; 46; 45]) &&
                (match t with _ :: y :: _ => negb (word_chr y) | _ => true end)) = false).
   { destruct (N.eqb x 118) eqn:E1; [|reflexivity]. destruct t as [|y t2]; [reflexivity|]. cbn [prefixb].
     destruct (N.eqb 115 y) eqn:E2; [|reflexivity]. destruct t2 as [|z t3].
@@ -1236,7 +1244,7 @@ Proof.
   intro H. cbn [scalar_safe]. destruct (needs_quotes s) eqn:Hq; [reflexivity|]. cbn [orb].
   destruct s as [|x t]; [reflexivity|]. pose proof H as H'. cbn [forallb] in H'. apply andb_true_iff in H'. destruct H' as [Hx Ht].
   destruct (word_facts x Hx) as (F1 & F2 & F3). cbn [inert]. rewrite F1, F2, F3. cbn [andb].
-  assert (Hc : (N.eqb x 118 && prefixb [115] t && negb (word_chr 0) &&
+  assert (Hc : (N.eqb x 118 && prefixb [115] t && negb (word_chr 0) && negb (memb 0 [36; 46; 45]) &&
                (match t with _ :: y :: _ => negb (word_chr y) | _ => true end)) = false).
   { destruct (N.eqb x 118) eqn:E1; [|reflexivity]. destruct t as [|y t2]; [reflexivity|]. cbn [prefixb].
     destruct (N.eqb 115 y) eqn:E2; [|reflexivity]. destruct t2 as [|z t3].
@@ -1347,10 +1355,30 @@ Proof. exists (lit "END"). split; vm_compute; reflexivity. Qed.
 (* strings: any string *)
 Definition strict_emit_strings_full : Prop :=
   forall sp s, strict_profile (emit sp (doc1 DOC (NAssign K (VStr s) [] None))) = true.
-(* "a.vs" is emitted bare (it is an identifier for the emitter and the lexer); the recogniser reads a word `vs` *)
+(* "vs.x" is emitted bare (an identifier for the emitter) although the lexer reads the operator `vs` and then `.x`:
+   the canonical text contains an ASCII alias -- the reserved-segment defect class of C04, a genuine defect *)
 Lemma strict_emit_strings_refuted :
   exists s, strict_profile (emit sp_ascii (doc1 DOC (NAssign K (VStr s) [] None))) = false.
-Proof. exists (lit "a.vs"). vm_compute. reflexivity. Qed.
+Proof. exists (lit "vs.x"). vm_compute. reflexivity. Qed.
+(* ... while a `vs` INSIDE a variable / identifier token is no alias: "$vs", "a.vs", "x-vs", "a-vs-b" are written bare,
+   are in the class, and are accepted (the recogniser no longer reads a word `vs` after `$` `.` `-`) *)
+Example strict_emit_vs_inside_token :
+  forallb (fun s => negb (needs_quotes s) && scalar_safe (VStr s) &&
+                    strict_profile (emit sp_ascii (doc1 DOC (NAssign K (VStr s) [] None))))
+          [lit "$vs"; lit "a.vs"; lit "x-vs"; lit "a-vs-b"] = true /\
+  (* also as items of an inline list and of a multi-line list, and after a key in an inline map position *)
+  strict_profile (emit sp_ascii (doc1 DOC (NAssign (lit "RISKS") (VList [VStr (lit "$vs"); VStr (lit "a.vs")]) [] None))) = true /\
+  strict_profile (emit sp_ascii (doc1 DOC (NAssign (lit "RISKS") (VList [VStr (lit "$vs"); VStr (lit "a.vs"); VStr (lit "x-vs")]) [] None))) = true /\
+  strict_profile (emit sp_ascii (doc1 DOC (NAssign K (VList [VMap [(lit "RISKS", VStr (lit "$vs"))]]) [] None))) = true.
+Proof. repeat split; vm_compute; reflexivity. Qed.
+
+(* residual imprecision of the recogniser (NOT a defect of the code): a variable may contain ':' ($a:vs is one VARIABLE
+   token, \$[A-Za-z0-9_:]+), and after ':' the recogniser still reads a word `vs` -- it cannot simply exempt ':' because
+   in `K::vs` the `vs` does start a token.  Such strings are outside the class (':' is not inert). *)
+Lemma strict_emit_var_colon_vs_rejected :
+  needs_quotes (lit "$a:vs") = false /\ scalar_safe (VStr (lit "$a:vs")) = false /\
+  strict_profile (emit sp_ascii (doc1 DOC (NAssign K (VStr (lit "$a:vs")) [] None))) = false.
+Proof. repeat split; vm_compute; reflexivity. Qed.
 
 (* zones: any content under a ``` fence *)
 Definition strict_emit_zones_full : Prop :=
